@@ -1,1 +1,343 @@
-fn main() { eprintln!("not built yet"); std::process::exit(2); }
+//! vh-bytecode: C18 in-process oracles.
+//!   prog     -> front end in-process on corpus programs: decode(encode(p)) == p, encode(decode(b)) == b
+//!   pkgfile  -> package files written by the real CLI: encode(decode(b)) == b
+//!   bc       -> random instruction sequences through BytecodeWriter, read back with reader + visitor
+//!   damage   -> strict prefixes and single-bit flips of a real package file through the real decoder
+use std::alloc::{GlobalAlloc, Layout, System};
+use std::path::{Path, PathBuf};
+use std::sync::atomic::{AtomicUsize, Ordering};
+
+use dora_bytecode::{Program, decode_program_from_bytes};
+use dora_frontend::sema::{Sema, SemaCreationParams};
+use vhc::{Args, Reporter, Rng, catch, msg_class};
+
+mod bc;
+mod recorder;
+
+// Largest single allocation request, so that "corrupted length field -> huge allocation" is observable even when
+// the allocation happens to succeed.
+struct Track;
+static MAXREQ: AtomicUsize = AtomicUsize::new(0);
+
+unsafe impl GlobalAlloc for Track {
+    unsafe fn alloc(&self, l: Layout) -> *mut u8 {
+        MAXREQ.fetch_max(l.size(), Ordering::Relaxed);
+        unsafe { System.alloc(l) }
+    }
+    unsafe fn alloc_zeroed(&self, l: Layout) -> *mut u8 {
+        MAXREQ.fetch_max(l.size(), Ordering::Relaxed);
+        unsafe { System.alloc_zeroed(l) }
+    }
+    unsafe fn realloc(&self, p: *mut u8, l: Layout, n: usize) -> *mut u8 {
+        MAXREQ.fetch_max(n, Ordering::Relaxed);
+        unsafe { System.realloc(p, l, n) }
+    }
+    unsafe fn dealloc(&self, p: *mut u8, l: Layout) {
+        unsafe { System.dealloc(p, l) }
+    }
+}
+
+#[global_allocator]
+static ALLOC: Track = Track;
+
+fn main() {
+    let args = Args::parse();
+    vhc::install_panic_hook();
+    let mode = args.mode.clone();
+    vhc::with_big_stack(move || match mode.as_str() {
+        "prog" => run_prog(&args),
+        "pkgfile" => run_pkgfile(&args),
+        "bc" => run_bc(&args),
+        "damage" => run_damage(&args),
+        m => panic!("unknown mode {}", m),
+    });
+}
+
+/// What the real package writer writes for `p` (see build.rs).
+#[cfg(not(has_pkg_encoder))]
+fn encode(p: &Program) -> Vec<u8> {
+    bincode::encode_to_vec(p, bincode::config::standard()).expect("program serialization failed")
+}
+
+#[cfg(has_pkg_encoder)]
+fn encode(p: &Program) -> Vec<u8> {
+    dora_bytecode::encode_program_to_bytes(p)
+}
+
+/// The byte-level round trip shared by prog and pkgfile.
+fn roundtrip(bytes: &[u8], original_debug: Option<&str>, bad: &mut Vec<(String, String)>) {
+    match decode_program_from_bytes(bytes) {
+        Err(e) => bad.push(("c18:package:decode-refused".into(), format!("the decoder refuses an undamaged package: {}", e))),
+        Ok(back) => {
+            if let Some(d) = original_debug {
+                let bd = format!("{:?}", back);
+                if bd != d {
+                    let p = bd.bytes().zip(d.bytes()).position(|(a, b)| a != b).unwrap_or(bd.len().min(d.len()));
+                    let lo = p.saturating_sub(120);
+                    bad.push((
+                        "c18:package:decode-differs".into(),
+                        format!("decode(encode(p)) != p; first difference at Debug offset {}: ...{}... vs ...{}...", p,
+                            &d[lo..(p + 120).min(d.len())].escape_debug(), &bd[lo..(p + 120).min(bd.len())].escape_debug()),
+                    ));
+                }
+            }
+            let again = encode(&back);
+            if again != bytes {
+                let p = again.iter().zip(bytes.iter()).position(|(a, b)| a != b).unwrap_or(again.len().min(bytes.len()));
+                bad.push(("c18:package:reencode-differs".into(), format!("encode(decode(b)) != b: lengths {} vs {}, first difference at byte {}", again.len(), bytes.len(), p)));
+            }
+        }
+    }
+}
+
+fn program_files(args: &Args) -> Vec<PathBuf> {
+    // programs: test/rt (they are meant to compile) + bench, in a fixed order; the list is rotated by the seed so
+    // that different seeds cover different slices
+    let root = vhc::repo_root();
+    let mut v: Vec<PathBuf> = vhc::corpus_files()
+        .into_iter()
+        .filter(|p| p.starts_with(root.join("test/rt")) || p.starts_with(root.join("bench")))
+        .collect();
+    let n = v.len().max(1);
+    v.rotate_left((args.seed as usize * 7919) % n);
+    v
+}
+
+fn compile(path: &Path) -> Result<Program, String> {
+    let params = SemaCreationParams::new().set_program_path(path.to_path_buf());
+    let mut sa = Sema::new(params);
+    let ok = dora_frontend::check_program(&mut sa);
+    if !ok || sa.diag.borrow().has_errors() {
+        return Err("rejected by the front end".into());
+    }
+    Ok(dora_frontend::emit_program(sa))
+}
+
+fn run_prog(args: &Args) {
+    let files = program_files(args);
+    let mut rep = Reporter::new(args);
+    for idx in args.indices() {
+        let path = &files[(idx as usize) % files.len()];
+        rep.begin_case(idx, path.display().to_string().as_bytes());
+        let p2 = path.clone();
+        let r = catch(move || compile(&p2));
+        let prog = match r {
+            Ok(Ok(p)) => p,
+            Ok(Err(_)) => {
+                rep.count("programs_rejected_by_front_end", 1);
+                continue;
+            }
+            Err(p) => {
+                // a front-end panic is C06's business; here the program simply is not available
+                rep.count("programs_front_end_panicked", 1);
+                rep.line(vhc::json!({"t": "note", "idx": idx, "what": format!("front end panicked at {}: {}", p.loc, p.msg), "file": path.display().to_string()}));
+                continue;
+            }
+        };
+        let mut bad = vec![];
+        let r = catch(|| {
+            let d = format!("{:?}", prog);
+            let bytes = encode(&prog);
+            let mut bad = vec![];
+            roundtrip(&bytes, Some(&d), &mut bad);
+            // a second encoding of the same value gives the same bytes
+            if encode(&prog) != bytes {
+                bad.push(("c18:package:encode-unstable".to_string(), "two encodings of one program differ".to_string()));
+            }
+            (bad, bytes.len(), prog.functions.len())
+        });
+        match r {
+            Ok((b, n, f)) => {
+                bad = b;
+                rep.count("programs_roundtripped", 1);
+                rep.count("package_bytes", n as u64);
+                rep.count("functions_in_programs", f as u64);
+                rep.line(vhc::json!({"t": "ok", "idx": idx, "h": vhc::fnv(path.display().to_string().as_bytes()), "file": path.display().to_string(), "bytes": n}));
+            }
+            Err(p) => bad.push((format!("panic@{}:{}", p.loc, msg_class(&p.msg)), format!("encode/decode panicked: {}", p.msg))),
+        }
+        for (k, w) in bad {
+            rep.bad(idx, &k, &format!("{} [{}]", w, path.display()), &path.display().to_string(), "prog");
+        }
+    }
+    rep.finish();
+}
+
+fn run_pkgfile(args: &Args) {
+    let files: Vec<PathBuf> = vhc::extra_files(args.extra.as_deref().expect("--extra DIR with package files"))
+        .into_iter()
+        .filter(|p| p.extension().map(|e| e == "dora-package").unwrap_or(false))
+        .collect();
+    let mut rep = Reporter::new(args);
+    for idx in args.indices() {
+        if idx as usize >= files.len() {
+            break;
+        }
+        let path = &files[idx as usize];
+        rep.begin_case(idx, path.display().to_string().as_bytes());
+        let bytes = std::fs::read(path).unwrap();
+        let b2 = bytes.clone();
+        let src = path.with_extension("dora");
+        let r = catch(move || {
+            let mut bad = vec![];
+            roundtrip(&b2, None, &mut bad);
+            // the file the CLI wrote is what this harness calls encode(compile(source))
+            if src.exists() {
+                if let Ok(p) = compile(&src) {
+                    if encode(&p) != b2 {
+                        bad.push(("c18:package:cli-vs-inprocess".to_string(), "the package written by the CLI differs from the in-process encoding of the same source".to_string()));
+                    }
+                }
+            }
+            bad
+        });
+        let bad = match r {
+            Ok(b) => b,
+            Err(p) => vec![(format!("panic@{}:{}", p.loc, msg_class(&p.msg)), format!("decode/encode panicked: {}", p.msg))],
+        };
+        rep.count("cli_packages_roundtripped", 1);
+        rep.line(vhc::json!({"t": "ok", "idx": idx, "h": vhc::fnv(&bytes), "file": path.display().to_string(), "bytes": bytes.len()}));
+        for (k, w) in bad {
+            rep.bad(idx, &k, &format!("{} [{}]", w, path.display()), &path.display().to_string(), "pkgfile");
+        }
+    }
+    rep.finish();
+}
+
+fn run_bc(args: &Args) {
+    let mut rep = Reporter::new(args);
+    for op in bc::all_opcodes() {
+        rep.count(&format!("op:{}", bc::opcode_name(op)), 0);
+    }
+    for idx in args.indices() {
+        rep.begin_case(idx, format!("bytecode case {} seed {}", idx, args.seed).as_bytes());
+        let seed = args.seed;
+        let r = catch(move || {
+            let mut rng = Rng::new(seed, 0x18bc, idx);
+            let b = bc::build(&mut rng, idx);
+            let bad = bc::check(&b);
+            (b, bad)
+        });
+        match r {
+            Ok((b, bad)) => {
+                rep.count("bytecode_functions", 1);
+                rep.count("bytecode_instructions", b.trace.len() as u64);
+                rep.count("bytecode_bytes", b.body.code().len() as u64);
+                if b.fwd_max_distance >= 65_536 {
+                    rep.count("functions_with_forward_jump_over_64k", 1);
+                }
+                if b.back_max_distance >= 16_384 {
+                    rep.count("functions_with_backward_jump_over_16k", 1);
+                }
+                if b.body.const_pool_entries().len() > 16_384 {
+                    rep.count("functions_with_const_pool_over_16k", 1);
+                }
+                if bad.is_empty() {
+                    let mut per: std::collections::HashMap<&str, u64> = std::collections::HashMap::new();
+                    for e in &b.trace {
+                        *per.entry(e.name).or_default() += 1;
+                    }
+                    for (n, c) in per {
+                        let op = bc::opcode_of(n).unwrap();
+                        rep.count(&format!("op:{}", bc::opcode_name(op)), c);
+                    }
+                }
+                let snip = if idx < 3 { bc::dump(&b, 20) } else { String::new() };
+                rep.line(vhc::json!({"t": "ok", "idx": idx, "h": vhc::fnv(b.body.code()), "n": b.trace.len(), "snip": snip}));
+                for (k, w) in bad {
+                    let at = w.split('#').nth(1).and_then(|s| s.split(|c: char| !c.is_ascii_digit()).next()).and_then(|s| s.parse().ok()).unwrap_or(0);
+                    rep.bad(idx, &k, &w, &bc::dump(&b, at), "bc");
+                }
+            }
+            Err(p) => {
+                let key = format!("panic@{}:{}", p.loc, msg_class(&p.msg));
+                rep.bad(idx, &key, &format!("writer/reader panicked: {}", p.msg), &format!("bytecode case {} seed {}", idx, args.seed), "bc");
+            }
+        }
+    }
+    rep.finish();
+}
+
+/// damage: index space = [0, nprefix) prefixes ++ [nprefix, count) bit flips.
+///   pkg=<file> step=<prefix length step> nprefix=<number of prefix cases>
+fn run_damage(args: &Args) {
+    let pkg = PathBuf::from(args.get("pkg").expect("pkg=<file>"));
+    let step: usize = args.get("step").map(|s| s.parse().unwrap()).unwrap_or(1);
+    let nprefix: u64 = args.get("nprefix").map(|s| s.parse().unwrap()).unwrap_or(0);
+    let orig = std::fs::read(&pkg).unwrap();
+    let mut rep = Reporter::new(args);
+    let limit = (1usize << 30).max(orig.len() * 256);
+    let mut shown = 0;
+    // dumpdir=<dir> dumpevery=<k>: also write every k-th damaged input to a file (for the code-generator binaries)
+    let dumpdir = args.get("dumpdir").map(PathBuf::from);
+    let dumpevery: u64 = args.get("dumpevery").map(|s| s.parse().unwrap()).unwrap_or(0);
+    let tag = args.get("tag").unwrap_or("pkg").to_string();
+    for idx in args.indices() {
+        let (class, desc, data): (&str, String, Vec<u8>) = if idx < nprefix {
+            let n = ((idx as usize) * step).min(orig.len() - 1);
+            ("truncation", format!("prefix of {} bytes of {} ({} bytes)", n, pkg.display(), orig.len()), orig[..n].to_vec())
+        } else {
+            let mut rng = Rng::new(args.seed, 0x18da, idx);
+            let pos = rng.below(orig.len());
+            let bit = rng.below(8);
+            let mut d = orig.clone();
+            d[pos] ^= 1 << bit;
+            ("bitflip", format!("bit {} of byte {} flipped in {} ({} bytes)", bit, pos, pkg.display(), orig.len()), d)
+        };
+        rep.begin_case(idx, desc.as_bytes());
+        MAXREQ.store(0, Ordering::Relaxed);
+        let d2 = data.clone();
+        let o2 = orig.clone();
+        let r = catch(move || match decode_program_from_bytes(&d2) {
+            Err(e) => (0u8, e),
+            Ok(p) => {
+                if encode(&p) == o2 { (1u8, String::new()) } else { (2u8, String::new()) }
+            }
+        });
+        let maxreq = MAXREQ.load(Ordering::Relaxed);
+        rep.count(&format!("damaged_inputs:{}", class), 1);
+        if let (Some(dir), true) = (&dumpdir, dumpevery > 0 && idx % dumpevery.max(1) == 0) {
+            let name = format!("{}_{}.dora-package", tag, idx);
+            std::fs::write(dir.join(&name), &data).unwrap();
+            let outcome = match &r {
+                Ok((0, _)) => "refused",
+                Ok((1, _)) => "accepted-equal-program",
+                Ok(_) => "accepted-different-program",
+                Err(_) => "panic",
+            };
+            rep.line(vhc::json!({"t": "ok", "idx": idx, "class": class, "outcome": outcome, "file": name, "desc": desc}));
+        }
+        match r {
+            Ok((0, e)) => {
+                rep.count(&format!("{}:refused", class), 1);
+                if e.trim().is_empty() {
+                    rep.bad(idx, "c18:decoder:refused-without-message", "refused with an empty error message", &desc, class);
+                }
+            }
+            Ok((1, _)) => rep.count(&format!("{}:accepted-equal-program", class), 1),
+            Ok((_, _)) => {
+                rep.count(&format!("{}:accepted-different-program", class), 1);
+                if shown < 2 {
+                    shown += 1;
+                    rep.bad(
+                        idx,
+                        &format!("c18:damaged-package-accepted:{}", class),
+                        &format!("decode_program_from_bytes accepts a damaged package and returns a program that differs from the original: {}", desc),
+                        &desc,
+                        class,
+                    );
+                }
+            }
+            Err(p) => {
+                rep.count(&format!("{}:panic", class), 1);
+                let key = format!("panic@{}:{}", p.loc, msg_class(&p.msg));
+                rep.bad(idx, &key, &format!("the package decoder panicked ({}): {}", p.msg, desc), &desc, class);
+            }
+        }
+        if maxreq > limit {
+            rep.count(&format!("{}:huge-allocation", class), 1);
+            rep.bad(idx, "c18:decoder:huge-allocation", &format!("decoding requested a single allocation of {} bytes for a {}-byte file: {}", maxreq, orig.len(), desc), &desc, class);
+        }
+    }
+    rep.finish();
+}
